@@ -446,12 +446,15 @@ func (rs *runState) runC16Layout(idx int, lay c16Layout) *violationT {
 		rs.infraProblem(err.Error())
 		return nil
 	}
-	// the sources must be valid under the co tag before the tool runs (generator soundness)
-	if r := runCmd(root, 5*time.Minute, nil, "go", "vet", "-tags", "co", "./..."); r.code != 0 && !strings.Contains(r.out, "vet:") {
-		if strings.Contains(r.out, "declared and not used") || strings.Contains(r.out, "undefined") || strings.Contains(r.out, "cannot use") {
-			rs.infraProblem("C16 layout does not type-check with the co tag:\n" + lastLines(r.out, 20))
-			return nil
-		}
+	// the layout must be valid Go under the co tag before the tool runs (soundness of my generator and
+	// of the reference file): anything wrong here is an infrastructure problem, never a violation
+	if r := runCmd(root, 5*time.Minute, nil, "go", "build", "-gcflags=-e", "-tags", "co", "./..."); r.code != 0 {
+		rs.infraProblem("C16 layout does not build with the co tag before cogen ran:\n" + lastLines(r.out, 20))
+		return nil
+	}
+	if r := runCmd(root, 5*time.Minute, nil, "go", "test", "-tags", "co", "-count=1", "-run", "^$", "./..."); r.code != 0 {
+		rs.infraProblem("C16 layout's tests do not build with the co tag before cogen ran:\n" + lastLines(r.out, 20))
+		return nil
 	}
 	before := snapshot(base)
 	run := func() *cmdResult {
